@@ -15,6 +15,7 @@ import json
 import re
 import time
 
+import ber
 import codec as C
 import drive
 import gen
@@ -23,7 +24,7 @@ import p_schema as PS
 import translate_re as TR
 from codec import M, sansldap
 
-LEAN_TARGETS = ["Verif.Props.C18", "Verif.Props.C18Filter", "Verif.Props.C18Recv", "Verif.Props.TiesSchema"]
+LEAN_TARGETS = ["Verif.Props.C18", "Verif.Props.C18Filter", "Verif.Props.C18Recv", "Verif.Props.C18Decode", "Verif.Props.TiesSchema"]
 LEVEL = "proof"
 ASSUMPTIONS = [
     "the running time of CPython's re engine on an input is at most a constant times the size of the backtracking search tree (Re.work)",
@@ -63,6 +64,7 @@ def count_steps(fn, budget):
             return None
         if event == "call":
             calls[co.co_name] += 1
+            calls[getattr(co, "co_qualname", co.co_name)] += 1
             return tracer
         if event == "line":
             steps += 1
@@ -108,6 +110,39 @@ def filter_cost_inputs(rng, ctx):
         out.append(t)
         out.append(PF.mutate(rng, t))
     return [t for t in out if len(t) <= 400]
+
+
+def A_writer():
+    from sansldap.asn1 import ASN1Writer
+    return ASN1Writer()
+
+
+def p_recv_nest(kind, depth):
+    """BER of a filter nested `depth` levels (not / and / or) around a presence filter"""
+    f = bytes.fromhex("870161")
+    for _ in range(depth):
+        f = bytes([{"not": 0xA2, "and": 0xA0, "or": 0xA1}[kind]]) + ber.enc_len(len(f)) + f
+    return f
+
+
+class MatchTimeout(BaseException):
+    pass
+
+
+def limited_match(pat, x, seconds=2.0):
+    """pat.match(x) under an interval timer (CPython's engine polls for signals while it backtracks)"""
+    import signal
+
+    def on_alarm(signum, frame):
+        raise MatchTimeout()
+
+    old = signal.signal(signal.SIGALRM, on_alarm)
+    signal.setitimer(signal.ITIMER_REAL, seconds)
+    try:
+        return pat.match(x)
+    finally:
+        signal.setitimer(signal.ITIMER_REAL, 0)
+        signal.signal(signal.SIGALRM, old)
 
 
 def py_patterns():
@@ -181,7 +216,15 @@ def run(ctx):
     reqs, expect = [], []
     for name, pat in pats.items():
         for x in inputs_for(name, pat, rng, ctx):
-            m = pat.match(x)
+            try:
+                m = limited_match(pat, x)
+            except MatchTimeout:
+                violations.append({"key": None, "what": "a compiled pattern needs more than 2 s on an input of a few hundred characters", "pattern": name,
+                                   "input": x if isinstance(x, str) else x.hex(), "chars": len(x)})
+                hist["xcheck:timeout"] += 1
+                if hist["xcheck:timeout"] >= 3:
+                    break
+                continue
             reqs.append({"op": "rematch", "name": name, "cps": to_cps(x)})
             expect.append({"end": None if m is None else m.end()})
             hist["xcheck:" + name] += 1
@@ -193,6 +236,9 @@ def run(ctx):
         got = drive.run_model(reqs)
         for q, e, g in zip(reqs, expect, got):
             evaluations += 1
+            if g.get("end") == "budget":
+                hist["xcheck:model-budget"] += 1      # the model's search tree on this input exceeds the driver's budget: scored by the pump search
+                continue
             if e != g:
                 disagreements.append({"what": "translated pattern and CPython disagree on the first match", "pattern": q["name"],
                                       "input": q["cps"][:80], "python": e, "lean": g})
@@ -225,6 +271,7 @@ def run(ctx):
         got = drive.run_model(wreqs, timeout=900)
         for j, (name, kind, pre, u, tail) in enumerate(jobs):
             w = [got[j * 3 + i].get("work", 0) for i in range(3)]
+            w = [10 ** 12 if x is None else x for x in w]     # None: the search tree exceeds the driver's budget on that input
             evaluations += 1
             distinct.add((name, u, pre[-3:]))
             if w[0] > 0 and w[1] / w[0] >= EXP_RATIO and w[2] / max(w[1], 1) >= EXP_RATIO:
@@ -321,6 +368,44 @@ def run(ctx):
                 if len(disagreements) > 10:
                     break
         hist["attempts:compared"] = len(rreq)
+    # BER filter decoding: the number of LDAPFilter.unpack calls against the counting decoder (Model/DecodeCost.lean)
+    dreq = []
+    from sansldap.asn1 import ASN1Reader as _Reader
+    fopts = sansldap.FilterOptions()
+    for _ in range(ctx.scale(400, 6000)):
+        f = gen.g_filter(rng, rng.choice([0, 1, 2, 3, 5]))
+        w = A_writer()
+        C.filter_from_json(f).pack(w, fopts)
+        data = bytes(w.get_data())
+        r = rng.random()
+        if r < 0.25 and data:
+            data = data[: rng.randrange(len(data) + 1)]
+        elif r < 0.4 and data:
+            i = rng.randrange(len(data))
+            data = data[:i] + bytes([data[i] ^ rng.choice([1, 2, 0x20, 0x80])]) + data[i + 1:]
+        elif r < 0.5:
+            k = rng.choice([5, 20, 60])
+            data = p_recv_nest(rng.choice(["not", "and", "or"]), k)
+        steps, calls, out = count_steps(lambda: sansldap.LDAPFilter.unpack(_Reader(data), fopts), step_bound(len(data)))
+        evaluations += 1
+        hist["steps:decode:" + ("ok" if out == "ok" else "budget" if out == "budget" else "rejected")] += 1
+        if out == "budget":
+            violations.append({"key": None, "what": "decoding a BER filter exceeds the quadratic step bound 100*(n+1)^2+5000 (executed source lines)",
+                               "hex": data.hex(), "bytes": len(data), "steps_when_stopped": steps})
+            continue
+        if "LDAPFilter.unpack" in calls and out != "RecursionError":
+            dreq.append(({"op": "decfilterc", "hex": data.hex()}, calls["LDAPFilter.unpack"], data))
+    if ctx.driver_ok and dreq:
+        got = drive.run_model([q for q, _, _ in dreq])
+        for (q, pycalls, data), g in zip(dreq, got):
+            if g.get("calls") != pycalls:
+                hist["decodecalls:differ-from-model"] += 1
+            if pycalls > 2 * g.get("calls", 0) + 2:
+                disagreements.append({"what": "the decoder makes more than twice the LDAPFilter.unpack calls the counting model (Model/DecodeCost.lean) accounts for",
+                                      "hex": data.hex(), "python_calls": pycalls, "model": g})
+                if len(disagreements) > 10:
+                    break
+        hist["decodecalls:compared"] = len(dreq)
     # the same step bound on the other hand-written loops: schema post-processing and receive (total bytes delivered as the size)
     for label, make, sizes in step_families(ctx):
         for k in sizes:
@@ -348,7 +433,8 @@ def run(ctx):
                 "sentences: executed source lines must stay below 100*(n+1)^2+5000 and the number of parser-function calls is compared with the "
                 "counting model's (Model/FilterCost.lean; equal on the unchanged tree, histogram calls:differ-from-model counts differences; more than "
                 "twice the model's count, or a different outcome, is a disagreement); the number of unpack_ldap_message calls of a receive() on generated / truncated / corrupted buffers is compared "
-                "with the counting model of the parse loop (Model/RecvCost.lean); the same step bound is applied to schema post-processing and receive families; "
+                "with the counting model of the parse loop (Model/RecvCost.lean), the number of LDAPFilter.unpack calls on generated / truncated / "
+                "corrupted / deeply nested BER filters with the counting decoder (Model/DecodeCost.lean); the same step bound is applied to schema post-processing and receive families; "
                 "distinct = distinct (pattern, unit, context), families and step inputs",
         "samples": samples,
         "histogram": dict(sorted(hist.items())),
